@@ -161,9 +161,16 @@ func srcTextFamily_(c *core.Ctx) {
 // the trailing space of the text in front of it swallows the byte.
 const srcLinesFamilyName = "source text: the lines of `<p>...</p>` render their bytes (line break + indentation = one space between lines)"
 
+// stCtx: the static contexts the lines stand in (props/C02.v: C02_source_lines_any_context_partial quantifies over every pre / post):
+// elements with and without constant attributes, and the body of a template itself (pre = post = nothing).
+var stCtx = []struct{ name, pre, post string }{
+	{"<p>", "<p>", "</p>"}, {"<div> with constant attributes", `<div class="c" id="x">`, "</div>"}, {"<li>", "<li>", "</li>"}, {"template body", "", ""},
+}
+
 func srcLinesFamily(c *core.Ctx) {
 	r := c.Rng.Fork()
 	type lc struct {
+		ctx          int
 		ls           []string
 		name         string
 		guard        bool
@@ -184,15 +191,22 @@ func srcLinesFamily(c *core.Ctx) {
 		all = append(all, ls)
 	}
 	reqs := make([]drv.Req, len(all))
+	ctxOf := make([]int, len(all))
 	for i, ls := range all {
-		a := make([][]byte, len(ls))
-		for j, l := range ls {
-			a[j] = []byte(l)
+		ctxOf[i] = i % len(stCtx)
+		a := [][]byte{[]byte(stCtx[ctxOf[i]].pre), []byte(stCtx[ctxOf[i]].post)}
+		for _, l := range ls {
+			a = append(a, []byte(l))
 		}
-		reqs[i] = drv.Req{Fn: "srclines", Args: a}
+		reqs[i] = drv.Req{Fn: "srcctx", Args: a}
 	}
 	m := c.Model(reqs)
-	body := func(ls []string) string { return "<p>\n" + strings.Join(ls, "\n") + "\n\t</p>" }
+	body := func(k int, ls []string) string {
+		if stCtx[k].pre == "" {
+			return strings.TrimPrefix(strings.Join(ls, "\n"), "\t")
+		}
+		return stCtx[k].pre + "\n" + strings.Join(ls, "\n") + "\n\t" + stCtx[k].post
+	}
 	var cases []lc
 	acceptOK := true
 	for i, ls := range all {
@@ -204,13 +218,13 @@ func srcLinesFamily(c *core.Ctx) {
 			c.Hist("source lines: a line outside the fragment (not judged)")
 			continue
 		}
-		src := "package main\n\ntempl SLX0" + tgen.Sig + " {\n\t" + body(ls) + "\n}\n"
+		src := "package main\n\ntempl SLX0" + tgen.Sig + " {\n\t" + body(ctxOf[i], ls) + "\n}\n"
 		if _, err := probe.Prepare("SLX", src); err != nil {
 			acceptOK = false
 			c.Fail("tie", srcLinesFamilyName+": a file of the fragment is accepted by parse + generate", "", exact(map[string]any{"source": src}), err.Error())
 			continue
 		}
-		cases = append(cases, lc{ls: ls, name: fmt.Sprintf("SLT%d", len(cases)), guard: string(m[i][1]) == "1", mCode: string(m[i][2]), mSpec: string(m[i][3])})
+		cases = append(cases, lc{ctx: ctxOf[i], ls: ls, name: fmt.Sprintf("SLT%d", len(cases)), guard: string(m[i][1]) == "1", mCode: string(m[i][2]), mSpec: string(m[i][3])})
 	}
 	c.Oblige("correspondence", srcLinesFamilyName+": every file the model puts in the fragment is accepted by parse + generate", acceptOK, "")
 	if len(cases) == 0 {
@@ -220,7 +234,7 @@ func srcLinesFamily(c *core.Ctx) {
 	var sb strings.Builder
 	sb.WriteString("package main\n\n")
 	for _, k := range cases {
-		fmt.Fprintf(&sb, "templ %s%s {\n\t%s\n}\n\n", k.name, tgen.Sig, body(k.ls))
+		fmt.Fprintf(&sb, "templ %s%s {\n\t%s\n}\n\n", k.name, tgen.Sig, body(k.ctx, k.ls))
 	}
 	f, err := probe.Prepare("SLT", sb.String())
 	if err != nil {
@@ -239,7 +253,7 @@ func srcLinesFamily(c *core.Ctx) {
 		pc[i] = probe.Case{Template: k.name, Args: tgen.Args{S0: "a"}}
 	}
 	one := func(i int) string {
-		return "package main\n\ntempl " + cases[i].name + tgen.Sig + " {\n\t" + body(cases[i].ls) + "\n}\n"
+		return "package main\n\ntempl " + cases[i].name + tgen.Sig + " {\n\t" + body(cases[i].ctx, cases[i].ls) + "\n}\n"
 	}
 	res, err := runProbe(c, prog, pc, one)
 	if err != nil {
@@ -259,7 +273,7 @@ func srcLinesFamily(c *core.Ctx) {
 		}
 		switch {
 		case impl == k.mSpec:
-			c.Hist(fmt.Sprintf("source lines: %d line(s) rendered as written", len(k.ls)))
+			c.Hist(fmt.Sprintf("source lines: %d line(s) in %s rendered as written", len(k.ls), stCtx[k.ctx].name))
 		case !k.guard && impl == k.mCode:
 			known++
 			c.Hist("source lines: byte 85/A0 at the front of a line dropped (known shape)")
